@@ -158,6 +158,17 @@ def handle (j : Json) : IO Unit := do
       emit case agree false branch sig'
         s!"{routeName} handler, configured {typ}/{fb} refresh_on_miss={rom}, model={model} listed-by={up} healthy={healthy}, document of {docLen} bytes: client status {o.status}, backend {bk}, X-Olla-Routing-Strategy={o.hStrategy} Decision={o.hDecision} ({sig})"
         mj
+  | "http-breaker" =>
+    -- the only lister of the model is skipped by the engine's open breaker; in a sound configuration nobody else is a
+    -- candidate (C09_sound: forwarded only to endpoints that list M) — while priming and afterwards
+    let contacted := (jintList (jget impl "contacted")).map Int.toNat
+    let listers := (jintList (jget j "listers")).map Int.toNat
+    let stray := contacted.filter (fun e => !listers.contains e)
+    let sound := soundConfig typ fb
+    let ok := !sound || (stray.isEmpty && jnat (jget impl "stray_while_priming") == 0)
+    emit case ok ok s!"http.breaker/{factoryName typ}/{fb}" (if ok then "" else "forwarded-to-unlisted-after-breaker-skip")
+      (if ok then "" else s!"olla engine, configured {typ}/{fb}: model {jstr (jget j "model")} listed by {listers} only, whose breaker is open after {jnat (jget impl "primed")} failed round trips: the request was answered {jnat (jget impl "status")}, backends contacted {contacted} (while priming: {jnat (jget impl "stray_while_priming")} request(s) at endpoints that do not list it)")
+      Json.null
   | _ => emit case false true "unknown-kind" "" s!"unknown kind {kind}"
 
 def main : IO Unit := do forLines (← IO.getStdin) handle
